@@ -134,6 +134,13 @@ def gen_boundary(seed, tier):
             if rng.random() < 0.3:
                 r_[rng.randrange(8)] ^= 1
             big.append(r_)
+        # stragglers: members of the big family at the loose threshold that stay alone (or in small
+        # groups) once the threshold is strict and the family is re-inserted piece by piece
+        for _ in range(rng.randint(3, 6)):
+            r_ = list(a)
+            for j in rng.sample(range(8), rng.choice([3, 4])):
+                r_[j] = 0
+            big.append(r_)
         b = [0] * 8 + [1] * 8
         mid = []
         for _ in range(rng.choice([40, 90, 140])):
